@@ -17,6 +17,7 @@ BAD_CMDLINES = [
     ["customasm", "main.asm", "-f", "intelhex,q:1,w:2,e:3,r:4,t:5", "-q"],
     ["customasm", "main.asm", "-dA=1", "-dB=2", "-dC=3", "-q"],
     ["customasm", "main.asm", "-dnosuch1=1", "-dnosuch2=2", "-dnosuch3", "-q"],
+    ["customasm", "main.asm", "-dzz=1", "-dyy=2", "-dxx=3", "-dww=4", "-dvv=5", "-dA=7", "-q"],
     ["customasm", "main.asm", "-f", "nonesuch", "--", "-f", "binary,x:1", "-q"],
 ]
 
@@ -188,7 +189,7 @@ def run_c10(ck):
         deep = "#d8 " + "-(" * depth + "1" + ")" * depth + "\n"
         base.append(("deep%d" % i, {"mode": "asm", "files": {"main.asm": deep}, "roots": ["main.asm"],
                                     "want": {"messages": True, "printed": True}}))
-    src = "#ruledef { ld {x: u8} => 0x11 @ x }\nA = 1\nB = 2\nstart:\nld A\nld start\n.inner:\nld B\n"
+    src = "#ruledef\n{\n    ld {x: u8} => 0x11 @ x\n}\nA = 1\nB = 2\nstart:\nld A\nld start\n.inner:\nld B\n"
     for args in BAD_CMDLINES:
         base.append(("cmdline:" + " ".join(args[2:]), {"mode": "drive", "files": {"main.asm": src}, "args": args,
                                                        "want": {"messages": True, "printed": True}}))
